@@ -178,7 +178,73 @@ func Reductions(g *Grammar, must []string, max int) []*Grammar {
 		add(c)
 		keep = keep0
 	}
+	// left-recursive rules keep their shape (recursive alternatives first, each starting with
+	// the recursive reference): whole alternatives may be dropped, operands may be reduced
+	for ri, r := range g.Rules {
+		if r.LR == nil {
+			continue
+		}
+		for ai := range r.Expr.Sub {
+			isTail := false
+			for _, t := range r.LR.Tails {
+				isTail = isTail || t == ai
+			}
+			if (isTail && len(r.LR.Tails) < 2) || (!isTail && len(r.LR.Bases) < 2) {
+				continue
+			}
+			c := g.Clone()
+			cr := c.Rules[ri]
+			cr.Expr.Sub = append(cr.Expr.Sub[:ai:ai], cr.Expr.Sub[ai+1:]...)
+			fix := func(xs []int) []int {
+				var out []int
+				for _, x := range xs {
+					if x == ai {
+						continue
+					}
+					if x > ai {
+						x--
+					}
+					out = append(out, x)
+				}
+				return out
+			}
+			cr.LR.Tails, cr.LR.Bases = fix(cr.LR.Tails), fix(cr.LR.Bases)
+			add(c)
+		}
+	}
+	lrAllowed := func(p path) bool {
+		r := g.Rules[p.rule]
+		if r.LR == nil {
+			return true
+		}
+		if len(p.idx) == 0 {
+			return false
+		}
+		ai := p.idx[0]
+		for _, b := range r.LR.Bases {
+			if b == ai {
+				return len(p.idx) >= 2 // inside a base
+			}
+		}
+		// inside a tail: only below the operands (sequence elements behind the reference)
+		e := r.Expr.Sub[ai]
+		depth := 1
+		for e.K == KAction || e.K == KLabel {
+			if len(p.idx) <= depth || p.idx[depth] != 0 {
+				return false
+			}
+			e = e.Sub[0]
+			depth++
+		}
+		if e.K != KSeq || len(p.idx) <= depth {
+			return false
+		}
+		return p.idx[depth] >= 1 && len(p.idx) > depth+1
+	}
 	for _, p := range allPaths(g) {
+		if !lrAllowed(p) {
+			continue
+		}
 		n := nodeAt(g, p)
 		// hoist a child in place of the node
 		for i := range n.Sub {
